@@ -70,11 +70,11 @@ func runPool(mode string, vecs []json.RawMessage, workers int, outPath, tracePat
 			defer wg.Done()
 			for len(mine) > 0 {
 				mu.Lock()
-				tooMany := hangs > 200
+				tooMany := hangs > 48
 				mu.Unlock()
 				if tooMany {
 					for _, i := range mine {
-						results[i] = &result{ID: i, R: json.RawMessage(`{"ret":"skipped","verdict":"skipped"}`)}
+						results[i] = &result{ID: i, R: json.RawMessage(`{"ret":"skipped","verdict":"skipped"}`), Trace: synthTrace(tracePath, i, vecs[i], "skipped")}
 					}
 					return
 				}
@@ -88,7 +88,7 @@ func runPool(mode string, vecs []json.RawMessage, workers int, outPath, tracePat
 				if len(mine) > 0 && fatal != "" {
 					// the worker ended without an answer for the next case
 					b, _ := json.Marshal(map[string]string{"ret": "crash", "verdict": "crash", "err": fatal})
-					results[mine[0]] = &result{ID: mine[0], R: b}
+					results[mine[0]] = &result{ID: mine[0], R: b, Trace: synthTrace(tracePath, mine[0], vecs[mine[0]], "crash")}
 					mine = mine[1:]
 					mu.Lock()
 					hangs++
@@ -127,6 +127,23 @@ func runPool(mode string, vecs []json.RawMessage, workers int, outPath, tracePat
 	}
 	bw.Flush()
 	return out.Close()
+}
+
+// synthTrace: the trace of a case the worker did not answer (init + ret), so that every vector has a run in the trace.
+func synthTrace(tracePath string, id int, vec json.RawMessage, ret string) []json.RawMessage {
+	if tracePath == "" {
+		return nil
+	}
+	var v struct {
+		Text []int `json:"text"`
+	}
+	json.Unmarshal(vec, &v)
+	if v.Text == nil {
+		v.Text = []int{}
+	}
+	a, _ := json.Marshal(traceEv{Ev: "init", ID: id, Text: v.Text})
+	b, _ := json.Marshal(traceEv{Ev: "ret", ID: id, Text: []int{}, Ret: ret})
+	return []json.RawMessage{a, b}
 }
 
 // runWorker starts one worker on the cases mine[...]; returns how many cases were answered
